@@ -9,13 +9,33 @@ VEC_THOROUGH = VEC_QUICK + [("DualVec", 1, 1), ("DualVec", 3, 1), ("Dual2Vec", 1
                             ("HyperDualVec", 1, 1), ("HyperDualVec", 2, 2), ("HyperDualVec", 1, 2)]
 
 
+def derivops_run():
+    return run_tlc("DerivOps.tla", cfg(invariants=["DenseOK", "ExportDeriv", "DerivGenericInv"]), "derivops", workers=3, timeout=600)
+
+
 def run(tier):
     kinds = VEC_QUICK if tier == "quick" else VEC_THOROUGH
-    chk, _ = machine_check("C07", tier, "AllOps", OPS, kinds, ["AbsentIsZero"], "zerofill",
+    chk, extra = machine_check("C07", tier, "AllOps", OPS, kinds, ["AbsentIsZero"], "zerofill",
                            "zero-fill replay (absent parts as explicit zeros)",
                            "one case = (concrete vector type, operation, form); operands range over all 2^k presence patterns; "
                            "TLC checks AbsentIsZero on every transition; the harness replays every behaviour with the model's "
                            "representation and with every absent part replaced by explicit zeros: all parts must agree; "
                            "random accumulator histories recorded on the real crate are validated by TraceCalc.tla",
-                           traces=(kinds, 2500 if tier == "quick" else 30000))
+                           traces=(kinds, 2500 if tier == "quick" else 30000), extra_jobs=[derivops_run])
+    dv = extra[0]
+    chk.add_tlc(dv, "every public operator of the Derivative container x all absent/present operand combinations: DenseOK "
+                    "(the operator commutes with absent |-> zeros), derivative_generic indexing")
+    if dv.violated:
+        chk.model_violation(dv, "DerivOps")
+    else:
+        rep = run_harness("hcore", ["derivops", dv.out_path])
+        chk.cov["traces_validated_against_impl"] += rep["cases"]
+        chk.cov["evaluations"] += rep["checks"]
+        chk.cov["derivative_operator_cases"] = rep["distinct_cases"]
+        for k in rep["per_case"]:
+            chk.distinct.add("Derivative|" + k)
+        for v in rep["violations"]:
+            chk.violation("Derivative operator: %s" % json.dumps(v)[:500], {"kind": "derivative-case", **v})
+        if rep["distinct_cases"] < 110:
+            raise ToolError("vacuity: %d Derivative operator cases" % rep["distinct_cases"])
     return chk.finish(extra={"exhaustive": True})
